@@ -47,19 +47,26 @@ static PEAK_NAMED: std::sync::atomic::AtomicUsize = std::sync::atomic::AtomicUsi
 pub fn live_named() -> usize { LIVE_NAMED.load(Ordering::SeqCst) }
 /// Largest value `live_named` has had since `reset_named`.
 pub fn peak_live_named() -> usize { PEAK_NAMED.load(Ordering::SeqCst) }
-pub fn reset_named() { LIVE_NAMED.store(0, Ordering::SeqCst); PEAK_NAMED.store(0, Ordering::SeqCst); SPAWNED_NAMED.store(0, Ordering::SeqCst); LIVE_SEQS.lock().unwrap().clear(); }
+pub fn reset_named() { LIVE_NAMED.store(0, Ordering::SeqCst); PEAK_NAMED.store(0, Ordering::SeqCst); SPAWNED_NAMED.store(0, Ordering::SeqCst); PANICKED_NAMED.store(0, Ordering::SeqCst); LIVE_SEQS.lock().unwrap_or_else(|e| e.into_inner()).clear(); NAMED_AGENTS.lock().unwrap_or_else(|e| e.into_inner()).clear(); }
+static PANICKED_NAMED: std::sync::atomic::AtomicUsize = std::sync::atomic::AtomicUsize::new(0);
+static NAMED_AGENTS: std::sync::Mutex<Vec<usize>> = std::sync::Mutex::new(Vec::new());
+/// Number of named threads that have exited by panicking since `reset_named` (counted when the thread's closure has been
+/// left, i.e. after everything on its stack has been unwound).
+pub fn panicked_exits_named() -> usize { PANICKED_NAMED.load(Ordering::SeqCst) }
+/// Is the calling thread one that was spawned with a name (a pool thread of the scheduler)?
+pub fn current_is_named() -> bool { let me = agent_id(); NAMED_AGENTS.lock().unwrap_or_else(|e| e.into_inner()).contains(&me) }
 static SPAWNED_NAMED: std::sync::atomic::AtomicUsize = std::sync::atomic::AtomicUsize::new(0);
 static LIVE_SEQS: std::sync::Mutex<Vec<usize>> = std::sync::Mutex::new(Vec::new());
 /// Number of named threads spawned since `reset_named` (each gets the next sequence number).
 pub fn spawned_named() -> usize { SPAWNED_NAMED.load(Ordering::SeqCst) }
 /// Number of live named threads whose sequence number is below `seq` (i.e. that were spawned before `spawned_named()` returned `seq`).
-pub fn live_named_before(seq: usize) -> usize { LIVE_SEQS.lock().unwrap().iter().filter(|s| **s < seq).count() }
+pub fn live_named_before(seq: usize) -> usize { LIVE_SEQS.lock().unwrap_or_else(|e| e.into_inner()).iter().filter(|s| **s < seq).count() }
 
 struct SetOnDrop(Arc<AtomicBool>, bool, usize);
 impl Drop for SetOnDrop {
     fn drop(&mut self) {
         emit(if panicking() { "exit panic" } else { "exit ok" });
-        if self.1 { LIVE_NAMED.fetch_sub(1, Ordering::SeqCst); LIVE_SEQS.lock().unwrap().retain(|s| *s != self.2); }
+        if self.1 { LIVE_NAMED.fetch_sub(1, Ordering::SeqCst); LIVE_SEQS.lock().unwrap_or_else(|e| e.into_inner()).retain(|s| *s != self.2); if panicking() { PANICKED_NAMED.fetch_add(1, Ordering::SeqCst); } }
         self.0.store(true, Ordering::SeqCst);
     }
 }
@@ -79,6 +86,7 @@ fn wrap_spawn<F, T>(f: F, finished: Arc<AtomicBool>, agent: Arc<std::sync::OnceL
 where F: FnOnce() -> T + Send + 'static, T: Send + 'static {
     move || {
         let _ = agent.set(agent_id());
+        if named { NAMED_AGENTS.lock().unwrap_or_else(|e| e.into_inner()).push(agent_id()); }
         let _fin = SetOnDrop(finished, named, seq);
         emit("start");
         f()
@@ -106,7 +114,7 @@ impl Builder {
             let live = LIVE_NAMED.fetch_add(1, Ordering::SeqCst) + 1;
             PEAK_NAMED.fetch_max(live, Ordering::SeqCst);
             seq = SPAWNED_NAMED.fetch_add(1, Ordering::SeqCst);
-            LIVE_SEQS.lock().unwrap().push(seq);
+            LIVE_SEQS.lock().unwrap_or_else(|e| e.into_inner()).push(seq);
         }
         let inner = self.inner.spawn(wrap_spawn(f, Arc::clone(&finished), Arc::clone(&agent), self.named, seq))?;
         #[cfg(feature = "shuttle-backend")]
